@@ -230,6 +230,14 @@ def run_c08(chk):
                 stepk = (1 if fine else 3) if thorough else (2 if fine else max(1, n0 // 36))
             for a in range(1, n0 + 1, stepk):
                 execute(reqs, [0] * a + [1] * 5000 + [0] * 5000, line_files=lf, tag='twin')
+        # two requests with different verbs, the second served completely at every other source line of the first: each is
+        # dispatched by its own verb
+        for ka, kb in (('plain', 'form'), ('form', 'plain'), ('body', 'hdrs')):
+            reqs = [(ka, 'A'), (kb, 'B')]
+            _, _, taken0 = L.run_threads([app, app], reqs, [0] * 5000, acc if acc.ok else None, lf)
+            n0 = sum(1 for t in taken0 if t == 0)
+            for a in range(1, n0 + 1, 1 if thorough else 2):
+                execute(reqs, [0] * a + [1] * 5000 + [0] * 5000, line_files=lf, tag='verbs')
         # cold start: the first error pages of a freshly started process, produced concurrently (module-level things that are
         # loaded on first use are loaded while another thread is already asking for them)
         import importlib
